@@ -48,13 +48,13 @@ BUILTIN_FUNCS = {'size', 'contains', 'startsWith', 'endsWith', 'matches', 'int',
                  'getDayOfYear', 'getDayOfMonth', 'getDate', 'getDayOfWeek', 'getHours', 'getMinutes',
                  'getSeconds', 'getMilliseconds'}
 
-INT_RE = re.compile(r'^[+-]?[0-9]+$')
-UINT_RE = re.compile(r'^\+?[0-9]+$')
+INT_RE = re.compile(r'[+-]?[0-9]+\Z')
+UINT_RE = re.compile(r'\+?[0-9]+\Z')
 # the intersection of what Rust's f64::from_str and Python's float() accept identically
-FLOAT_RE = re.compile(r'^[+-]?([0-9]+(\.[0-9]*)?|\.[0-9]+)([eE][+-]?[0-9]+)?$')
+FLOAT_RE = re.compile(r'[+-]?([0-9]+(\.[0-9]*)?|\.[0-9]+)([eE][+-]?[0-9]+)?\Z')
 
 # regex subset on which Python `re` and Rust `regex` agree (ASCII classes, anchors, * + ? | ())
-PORTABLE_RE = re.compile(r'^[A-Za-z0-9 ^$.*+?|()\[\]-]*$')
+PORTABLE_RE = re.compile(r'[A-Za-z0-9 ^$.*+?|()\[\]-]*\Z')
 
 
 class Evaluator:
